@@ -793,7 +793,9 @@ def run_bare(rec, ep, s, nodes):
 
 
 def run_views_bare(rec, ep, s, nodes):
-    txns = [{'amount': 10.0, 'date': datetime.datetime(2025, 1, 15), 'category': 'Food {0.__class__}', 'subcategory': 'S', 'merchant': 'M', 'tags': ['a', 'B']},
+    # (newest first, as most bank exports list them: the list a view is evaluated over stays in the caller's order)
+    txns = [{'amount': 30.0, 'date': datetime.datetime(2025, 3, 15), 'category': 'Bills', 'subcategory': 'T', 'merchant': 'M', 'tags': ['c']},
+            {'amount': 10.0, 'date': datetime.datetime(2025, 1, 15), 'category': 'Food {0.__class__}', 'subcategory': 'S', 'merchant': 'M', 'tags': ['a', 'B']},
             {'amount': 20.0, 'date': datetime.datetime(2025, 2, 15), 'category': 'Food', 'subcategory': 'S', 'merchant': 'M', 'tags': []}]
     ctx = ep.create_context(transactions=txns, num_months=12, variables={'v': 1, 'fmt': '{0.__class__}'}, period_data={'month': 2})
     plain_outcome(rec, 'views evaluate', s, lambda: ep.evaluate(s, ctx), s + json.dumps(core.jsonable(txns)), ep, nodes, immut=[txns])
